@@ -5,6 +5,7 @@ import os
 import re
 import threading
 import vlib
+import vseam
 
 PID = "C20"
 MANIFEST = dict(
@@ -45,8 +46,22 @@ def viol(ck, sig, detail):
 
 
 def match(exp, obs, step, rec, prev):
-    """Verdict projection: answer class, every property of both objects, shared string storage."""
-    for k in ("ret", "cname", "val", "col", "la", "txt", "shared"):
+    """Verdict projection.  A step with an injected allocation failure (arg.fail = k): not judged when the call
+    never got to its k-th allocation (the sweep ends there; the call is the ordinary one, replayed as such);
+    otherwise the refusal for lack of memory the specification gives, or the call's ordinary outcome."""
+    if (step.get("arg") or {}).get("fail"):
+        if not obs.get("fired"):
+            return None
+        why = match1(exp, obs)
+        if why and step.get("alt") is not None and match1(step["alt"], obs) is None:
+            return None
+        return why
+    return match1(exp, obs)
+
+
+def match1(exp, obs):
+    """answer class, every property of both objects, shared string storage (+ lost / twice released blocks)"""
+    for k in ("ret", "cname", "val", "col", "la", "txt", "shared", "leak", "badfree"):
         if k in exp and exp[k] != "any" and obs.get(k) != exp[k]:
             return "%s: expected %s, observed %s" % (k, json.dumps(exp[k])[:200], json.dumps(obs.get(k))[:200])
     for pk in ("p0", "p1"):
@@ -97,6 +112,8 @@ def signature(mm, kind):
                 parts.append("src-char-nul")
     if a in ("copy", "scribble", "fini"):
         what = "differs" if what.startswith("p0") or what.startswith("p1") else what
+    if arg.get("fail"):
+        parts.append("nomem")
     parts.append(what)
     return ":".join(parts)
 
@@ -318,6 +335,7 @@ def gen_histories(ck, n, steps, cxx=False):
         for _ in range(steps):
             r = rng.random()
             o = 0 if rng.random() < 0.75 else 1
+            fail = {} if cxx or rng.random() > 0.15 else {"fail": rng.choice([1, 1, 1, 2, 2, 3])}
             if r < 0.55:
                 nm = rng.choice(known) if rng.random() < 0.85 else rng.choice(names)
                 v = fitting_value(rng, nm) if rng.random() < 0.6 else rand_value(rng)
@@ -325,15 +343,20 @@ def gen_histories(ck, n, steps, cxx=False):
                     v = {"f": "num", "n": dbl(rng.choice([0, 1, 2])), "c": [], "sty": "dec"}
                 if v["f"] in ("num", "txt", "rle") and rng.random() < 0.2:
                     v["f"] = "p" + v["f"]              # same text through mpt_object_set_property
-                beh.append({"a": "set", "arg": dict({"o": o, "name": codes(nm)}, **v)})
+                if fail and rng.random() < 0.7:     # where storage is needed
+                    strn = [n for n in known if HINT.get(n.lower()) == "str"]
+                    if strn:
+                        nm = rng.choice(strn)
+                        v = fitting_value(rng, nm)
+                beh.append({"a": "set", "arg": dict(dict({"o": o, "name": codes(nm)}, **v), **fail)})
             elif r < 0.65:
-                beh.append({"a": "reset", "arg": {"o": o, "name": codes(rng.choice(names)), "f": rng.choice(["null", "null", "pnull"])}})
+                beh.append({"a": "reset", "arg": {"o": o, "name": codes(rng.choice(names)), "f": rng.choice(["null", "null", "pnull"]), **fail}})
             elif r < 0.75:
                 beh.append({"a": "get", "arg": {"o": o, "name": codes(rng.choice(names))}})
             elif r < 0.84:
                 frm = rng.choice([1 - o, 1 - o, 1 - o, o])
                 modes = ["null", "empty", "clone", "props"] if cxx else ["null", "empty"]
-                beh.append({"a": "copy", "arg": {"o": o, "from": frm, "mode": rng.choice(modes)}})
+                beh.append({"a": "copy", "arg": dict({"o": o, "from": frm, "mode": rng.choice(modes)}, **fail)})
             elif r < 0.89:
                 beh.append({"a": "scribble", "arg": {"o": o}})
             elif r < 0.92:
@@ -347,7 +370,7 @@ def gen_histories(ck, n, steps, cxx=False):
                     v.update(f="rle", c=c)
                 else:
                     v.update(f="col", c=[rng.choice([0, 1, 127, 128, 255]) for _ in range(4)])
-                beh.append({"a": "auto", "arg": dict({"o": o}, **v)})
+                beh.append({"a": "auto", "arg": dict(dict({"o": o}, **v), **fail)})
             else:
                 w = rng.choice(WORDS + ["#" + "".join(rng.choice("0123456789abcdefABCDEFg") for _ in range(rng.choice([2, 4, 6, 6, 8, 8, 3, 10])))])
                 q = rng.random()
@@ -363,7 +386,7 @@ def gen_histories(ck, n, steps, cxx=False):
                     tot = sum(c[1::2])
                     m = rng.choice(["new", "new", "self", "tail"])
                     n = rng.choice([-1, 0, 1, tot // 2, tot, tot + 1]) if m == "new" else rng.choice([0, 1, 2, 5, 300])
-                    beh.append({"a": "sset", "arg": {"o": o, "m": m, "c": c if m == "new" else [], "n": n}})
+                    beh.append({"a": "sset", "arg": dict({"o": o, "m": m, "c": c if m == "new" else [], "n": n}, **fail)})
                 elif cxx and q < 0.4:
                     beh.append({"a": "cprint", "arg": {"c": [rng.choice([0, 1, 9, 10, 15, 16, 127, 128, 171, 254, 255]) for _ in range(4)]}})
                 else:
@@ -439,8 +462,14 @@ def trace_part(ck, hist, recs2, tag, nt, pfx="", max_rounds=12):
         ck.notes["trace_histories_rejected_" + tag] = len(bad)
 
 
+SEAM_SRC = tuple("mptplot/layout/%s.c" % n for n in ("axis_property", "line_property", "text_property", "graph_property",
+                                                      "world_property", "string_set"))
+MAXK = 8     # allocations per call the failure sweep follows (a set makes one, a graph/text copy two)
+
+
 def build():
-    return vlib.build_driver("layout", ["layout.c"], libs=LIBS)
+    """the sources that allocate for layout objects go through the allocation seam (malloc/calloc/realloc/free + strdup)"""
+    return vseam.build_seam_driver("layout", ["layout.c"], SEAM_SRC, libs=LIBS, link_libs=True, defines=("strdup=vf_strdup",))
 
 
 def build_cxx():
@@ -448,6 +477,57 @@ def build_cxx():
 
 
 CXX_ONLY_MODES = ("clone", "props")
+
+
+def injected(beh):
+    return any((st.get("arg") or {}).get("fail") for st in beh)
+
+
+def twin_key(beh):
+    """call sequence without the injection mark"""
+    return json.dumps([(s["a"], {k: v for k, v in (s.get("arg") or {}).items() if k != "fail"}) for s in beh], sort_keys=True)
+
+
+def fail_sweep(ck, exe, inject, plain, nt):
+    """arg.fail = k for every k the call reaches: the sweep of a behaviour goes on while the injected failure fires"""
+    twin = {}
+    for beh in plain:
+        twin[twin_key(beh)] = beh[-1].get("exp")
+    todo = []
+    for beh in inject:
+        beh = [dict(st) for st in beh]
+        beh[-1]["alt"] = twin.get(twin_key(beh))
+        todo.append(beh)
+    fired_total, reached = 0, {}
+    for k in range(1, MAXK + 1):
+        if not todo:
+            break
+        cur = [[dict(st, arg=dict(st["arg"], fail=k)) if (st.get("arg") or {}).get("fail") else st for st in beh] for beh in todo]
+        recs = vseam.rerun_hung(exe, cur, vseam.run_parallel(exe, cur, nproc=4))
+        by0 = vlib.group_records(recs)
+        for mm in vlib.compare(cur, recs, match):
+            beh = cur[mm["b"]]
+            if mm["i"] > 0 and len(by0.get(mm["b"], [])) >= mm["i"]:
+                mm["prev"] = by0[mm["b"]][mm["i"] - 1]
+            clean = [{x: y for x, y in st.items() if x != "alt"} for st in beh]
+            viol(ck, signature(mm, kind_of(beh)), {"binding": "A(replay, allocation failure %d)" % k, "behaviour": clean, "step": mm["i"],
+                                                   "why": mm["why"], "record": mm["rec"], "driver": ""})
+        nxt = []
+        for b, beh in enumerate(cur):
+            rs = by0.get(b, [])
+            if len(rs) == len(beh) and (rs[-1].get("obs") or {}).get("fired"):
+                fired_total += 1
+                reached[beh[-1]["a"]] = reached.get(beh[-1]["a"], 0) + 1
+                nt.add(json.dumps([(s["a"], s.get("arg")) for s in beh], sort_keys=True))
+                nxt.append(todo[b])
+        with _LOCK:
+            ck.cov["evaluations"] += len(cur)
+        todo = nxt
+    with _LOCK:
+        ck.notes["nomem_behaviours"] = len(inject)
+        ck.notes["nomem_failures_met"] = fired_total
+        ck.notes["nomem_failures_met_by_action"] = reached
+        ck.notes["nomem_sweep_open_at_maxk"] = len(todo)
 
 
 def c_only(beh):
@@ -470,7 +550,8 @@ C_ONLY_ACTIONS = ("cset", "calpha", "lset", "sset")     # plain C calls, not par
 
 
 def cxx_able(beh):
-    return all(st["a"] not in C_ONLY_ACTIONS for st in beh)
+    """(no allocation seam below libmpt++: injected failures are replayed through the C driver only)"""
+    return all(st["a"] not in C_ONLY_ACTIONS for st in beh) and not injected(beh)
 
 
 def replay_part(ck, exe, behs, tag, nt):
@@ -535,7 +616,9 @@ def run(tier):
     behs = vlib.parse_behaviours(gen.out)
     nt = set()
     fut = pool.submit(replay_part, ck, exe_cxx, [b for b in behs if cxx_able(b)], "cxx:", nt)
-    replay_part(ck, exe, [b for b in behs if c_only(b)], "", nt)
+    plain = [b for b in behs if c_only(b) and not injected(b)]
+    replay_part(ck, exe, plain, "", nt)
+    fail_sweep(ck, exe, [b for b in behs if injected(b)], plain, nt)
     fut.result()
 
     # 3. binding B: recorded executions with values across/beyond every range validated by TLC
